@@ -117,9 +117,33 @@ def py_of(c):
 
 # ------------------------------------------------------------------ oracles (implementation only)
 
+SCALE = [63, 64, 65, 255, 256, 257, 1023, 1024, 1025, 4095, 4096, 4097, 8191, 8192, 8193, 65535, 65536, 65537]
+
+
+def scale_cuts(n):
+    """cut points for long inputs: around every power-of-two-ish size (where buffer limits live), the ends, the middle"""
+    pts = set([0, 1, 2, 3, 9, 10, 11, 12, n // 2, n - 1, n])
+    for k in SCALE:
+        for d in (-76, 0, 76):
+            if 0 <= k + d <= n:
+                pts.add(k + d)
+    return sorted(x for x in pts if 0 <= x <= n)
+
+
 def partitions(seq, maxparts=3):
     n = len(seq)
     yield [seq]
+    if n > 64:
+        cuts = scale_cuts(n)
+        for i in cuts:
+            yield [seq[:i], seq[i:]]
+        for a, i in enumerate(cuts):
+            for j in cuts[a:]:
+                yield [seq[:i], seq[i:j], seq[j:]]
+        for size in (64, 1000, 1024, 4096):
+            if size < n:
+                yield [seq[k:k + size] for k in range(0, n, size)]
+        return
     for i in range(0, n + 1):
         yield [seq[:i], seq[i:]]
     if maxparts >= 3:
@@ -128,7 +152,7 @@ def partitions(seq, maxparts=3):
                 yield [seq[:i], seq[i:j], seq[j:]]
 
 
-def oracle_chunks_dec(data, encoding, force):
+def oracle_chunks_dec(data, encoding, force, own=None, limit=40):
     """every partition of the byte stream decodes to the one-shot result (errors compared by class)"""
     C = _c()
     try:
@@ -142,7 +166,14 @@ def oracle_chunks_dec(data, encoding, force):
         det, explicit = C.detectencoding_str(data, True)
         if encoding is None or explicit:
             inner = det
-    for parts in partitions(data):
+    allparts = partitions(data)
+    if len(data) > 64:
+        allparts = list(allparts)
+        r = random.Random(len(data))
+        allparts = r.sample(allparts, min(len(allparts), limit))
+        if own is not None:
+            allparts.append(list(own))
+    for parts in allparts:
         try:
             got = idec(parts, encoding, force)
         except Exception as e:
@@ -150,7 +181,8 @@ def oracle_chunks_dec(data, encoding, force):
         if got != ref:
             if not inner_law_holds(inner, parts):
                 continue
-            return 'chunks %r decode to %r, one-shot gives %r' % (parts, got, ref)
+            return 'chunks of lengths %r of %s decode to %s, one-shot gives %s' % (
+                [len(x) for x in parts], lib.short(data), lib.short(got), lib.short(ref))
     return ''
 
 
@@ -171,19 +203,27 @@ def inner_law_holds(enc, parts):
     return one == inc
 
 
-def oracle_chunks_enc(text, encoding):
+def oracle_chunks_enc(text, encoding, own=None, limit=40):
     C = _c()
     try:
         ref = C.encode(text, encoding=encoding)[0]
     except Exception as e:
         ref = err_name(e)
-    for parts in partitions(text):
+    allparts = partitions(text)
+    if len(text) > 64:
+        allparts = list(allparts)
+        r = random.Random(len(text))
+        allparts = r.sample(allparts, min(len(allparts), limit))
+        if own is not None:
+            allparts.append(list(own))
+    for parts in allparts:
         try:
             got = ienc(parts, encoding)
         except Exception as e:
             got = err_name(e)
         if got != ref:
-            return 'chunks %r encode to %r, one-shot gives %r' % (parts, got, ref)
+            return 'chunks of lengths %r of %s encode to %s, one-shot gives %s' % (
+                [len(x) for x in parts], lib.short(text), lib.short(got), lib.short(ref))
     return ''
 
 
@@ -244,9 +284,11 @@ def oracle_roundtrip(text, enc):
 def oracle(c, _e=None):
     k = c[0]
     if k == 'idec':
-        return oracle_chunks_dec(b''.join(c[1]), c[2], c[3])
+        return oracle_chunks_dec(b''.join(c[1]), c[2], c[3], own=c[1])
+    if k == 'idecL':
+        return oracle_chunks_dec(c[1], c[2], c[3], limit=60)
     if k == 'ienc':
-        return oracle_chunks_enc(''.join(c[1]), c[2])
+        return oracle_chunks_enc(''.join(c[1]), c[2], own=c[1])
     if k == 'det' and c[2]:
         C = _c()
         e, _ = C.detectencoding_str(c[1], True)
@@ -327,6 +369,53 @@ def gen_cases(tier, seed):
     return cases, {'detect_cases': n_det, 'text_cases': n_text, 'codec_cases': n_model}
 
 
+def long_texts(rnd, tier, namepad='x'):
+    """texts whose deciding character (the closing quote of the @charset head, the first character after a BOM,
+    the end of the head) lies beyond N characters, N around the sizes in SCALE: a limit on how much is buffered
+    or scanned is exactly what short inputs cannot see"""
+    top = 8193 if tier == 'quick' else 65537
+    out = []
+    for n in [k for k in SCALE if k <= top]:
+        if tier == 'quick' and n not in (64, 257, 1024, 1025, 4096, 8193) and rnd.random() < 0.6:
+            continue
+        pad = ' ' * n
+        npad = namepad * n
+        com = '/*' + 'x' * n + '*/'
+        out += [
+            '@charset "latin-1' + npad + '";a{}',         # padded name: the quote comes late (with blanks Python's
+                                                            # registry still knows the name; the model's does not: 'x')
+            '@charset "utf-8;\n' + com + 'a{content:"x"}',  # no closing quote, a later string supplies one
+            '@charset ' + pad,                              # never becomes a head with a quote
+            '@charset "utf-8";' + com + 'a{}',             # ordinary head, long body
+            com + '@charset "utf-8";',                     # no head at all
+        ]
+    return out
+
+
+def gen_long(tier, seed):
+    rnd = random.Random(seed + 2)
+    cases = []
+    for t in long_texts(rnd, tier):
+        for fin in (False, True):
+            cases.append(('detu', t, fin))
+            cases.append(('fix', t, rnd.choice(['utf-8', 'latin-1', 'utf-8-sig']), fin))
+        data = t.encode('latin-1')
+        cases.append(('det', data, False))
+        cases.append(('det', data, True))
+        for enc in (None, 'latin-1', 'utf-8-sig'):
+            d2 = (codecs.BOM_UTF8 + data) if enc == 'utf-8-sig' else data
+            force = rnd.random() < 0.7
+            cases.append(('dec', d2, enc, force))
+            parts = list(partitions(d2))
+            for p in rnd.sample(parts, min(len(parts), 6 if tier == 'quick' else 30)):
+                cases.append(('idec', tuple(p), enc, force))
+            cases.append(('enc', t, enc))
+            tparts = list(partitions(t))
+            for p in rnd.sample(tparts, min(len(tparts), 4 if tier == 'quick' else 20)):
+                cases.append(('ienc', tuple(p), enc))
+    return cases
+
+
 def gen_oracle_only(tier, seed):
     """cases that only the implementation sees: the real multi-byte codecs"""
     rnd = random.Random(seed + 1)
@@ -346,6 +435,11 @@ def gen_oracle_only(tier, seed):
             if len(t) <= 30:
                 out.append(('ienc', (t,), enc))
                 out.append(('ienc', (t,), None))
+    lt = long_texts(rnd, tier, namepad=' ')
+    for t in rnd.sample(lt, min(len(lt), 12 if tier == 'quick' else 60)):
+        for enc in rnd.sample(['utf-16', 'utf-32-le', 'utf-8-sig', 'utf-16-be', 'cp1252'], 2):
+            out.append(('idecL', t.encode(enc), rnd.choice([None, enc]), True))
+        out.append(('idecL', t.encode('latin-1'), None, True))
     return out
 
 
@@ -354,6 +448,10 @@ def run(tier, seed):
     build = lib.build_and_audit(PROP)
     findings = lib.Findings(PROP)
     cases, dist = gen_cases(tier, seed)
+    longc = gen_long(tier, seed)
+    dist['long_input_cases'] = len(longc)
+    dist['long_input_sizes'] = sorted(set(len(c[1]) if c[0] in ('det', 'detu', 'fix', 'dec', 'enc') else sum(len(x) for x in c[1]) for c in longc))[-5:]
+    cases = cases + longc
     res = corr.run('c14', cases, line_of, py_of, oracle, chunk=3000)
     extra = gen_oracle_only(tier, seed)
     res2 = corr.run('c14o', extra, lambda c: 'cdet N -', lambda c: '~/0', oracle, chunk=200)
